@@ -16,7 +16,7 @@ Code the property is anchored in: {', '.join(p['anchors']['files'])}
 Mechanisms: {'; '.join(m['name']+' ('+m['where']+')' for m in p['anchors']['mechanism'])}
 
 ## Your scratch checkout
-A git worktree of the repository is at {wt} (already created, at the pinned commit). Work ONLY inside {wt}. Never touch /repo or /verif (do not read /verif either). The sandbox has no network: every cargo command needs `--offline`. To avoid rebuilding all dependencies, start with `cp -a /repo/target {wt}/target` (about 7 GB) and always build with `CARGO_TARGET_DIR={wt}/target`. Build and test only the crates you touch and what depends on them for your demonstration (e.g. `cargo test --offline -p sway-ir`), never the whole workspace unless needed; the machine is shared, use at most 6 parallel jobs (`-j 6`).
+A git worktree of the repository is at {wt} (already created, at the pinned commit). Work ONLY inside {wt}. Never touch /repo or /verif (do not read /verif either). The sandbox has no network: every cargo command needs `--offline`. Disk space is tight. To avoid rebuilding all dependencies, start with `mkdir -p {wt}/target && rsync -a --exclude incremental --exclude examples /repo/target/ {wt}/target/` (about 15 GB; do NOT use a plain `cp -a`), always build with `CARGO_TARGET_DIR={wt}/target`, and when you are completely done delete `{wt}/target/debug/incremental` and any test executables you built that the demonstration does not need. Build and test only the crates you touch and what depends on them for your demonstration (e.g. `cargo test --offline -p sway-ir`), never the whole workspace unless needed; the machine is shared, use at most 6 parallel jobs (`-j 6`).
 
 ## What makes a good change
 - It looks like something a developer could plausibly commit (a refactor that drops a case, a wrong operand, an off-by-one, a missing guard, an 'optimisation' that is not always valid, two edits in different places that are each harmless alone). Small: ideally under 30 changed lines. No comments that give it away.
